@@ -437,6 +437,45 @@ fn c05_cands(rng: &mut Rng, pre: &Snap, _t: Tier) -> Vec<Cand> {
 }
 
 fn c05_enum(chk: &StepCheck, cx: &mut Ctx) {
+    // a layout change repeated 256 and 65536 times (revision counters of 8 / 16 bits wrap back to
+    // a value some cache was stamped with), then the movement candidates
+    for (i, (n, variant)) in [(256u32, 0u32), (65536, 0), (256, 1), (65536, 1), (65536, 2)].iter().enumerate() {
+        if !cx.mine(i as u64 + 7) || !cx.begin_group(&format!("repeat {} x variant {}", n, variant)) {
+            continue;
+        }
+        let (c, l) = (6u32, 8u32);
+        let mut setup: Vec<Op> = Vec::new();
+        match variant {
+            0 => {
+                // region + origin mode, an addressing call (fills whatever is cached), then CSI r n times
+                setup.push(Op::Api(Call::SetMargins(Some(3), Some(5))));
+                setup.push(Op::Api(Call::SetMode(vec![6], true)));
+                setup.push(Op::Api(Call::CursorPosition(Some(2), Some(4))));
+                for _ in 0..*n {
+                    setup.push(Op::Api(Call::SetMargins(None, None)));
+                }
+            }
+            1 => {
+                setup.push(Op::Api(Call::CursorPosition(Some(8), Some(3))));
+                for k in 0..*n {
+                    setup.push(Op::Api(Call::Resize(Some(if k % 2 == 0 { 5 } else { 8 }), None)));
+                }
+            }
+            _ => {
+                setup.push(Op::Api(Call::CursorPosition(Some(4), Some(3))));
+                for k in 0..*n {
+                    setup.push(Op::Api(if k % 2 == 0 { Call::SetMode(vec![6], true) } else { Call::ResetMode(vec![6], true) }));
+                }
+                setup.push(Op::Api(Call::SetMargins(Some(2), Some(6))));
+            }
+        }
+        if let Some((base, pre)) = reach(cx, c, l, &setup) {
+            let mut rng = Rng::new(*n as u64 + *variant as u64);
+            let cands = c05_cands_full(true, &mut rng, &pre);
+            fan_out(cx, chk.id, &chk.owns, c, l, &setup, &base, &pre, &cands);
+            cx.stats.exhaustive_parts.insert("movement candidates after 256 / 65536 repetitions of a layout change (CSI r, resize between two heights, DECOM set / reset)".into());
+        }
+    }
     if modes_sweep(chk, cx, 0.25) {
         cx.stats.exhaustive_parts.insert("every mode number 0..=130 and 40 numbers other terminals define, private and ANSI, set on a dense 5x3 screen: the check's candidates judged from three cursor positions".into());
     }
@@ -1124,6 +1163,32 @@ fn c12_cands(rng: &mut Rng, _pre: &Snap, _t: Tier) -> Vec<Cand> {
             }
         }
     }
+    // "erases the screen": nothing written while 132 wide may survive RM ?3 - not even out of
+    // sight beyond the restored width (a grow probe follows)
+    for _ in 0..3 {
+        let (pc, pl) = (_pre.columns, _pre.lines);
+        let mut ops: Vec<Op> = vec![Op::Api(SetMode(vec![3], true)), Op::Api(CursorPosition(Some(pl), Some(1)))];
+        for _ in 0..rng.below(3) {
+            ops.push(Op::Api(if rng.bool() { Index } else { InsertLines(Some(1)) }));
+        }
+        ops.push(Op::Api(CursorPosition(Some(rng.range(1, pl)), Some(rng.range(pc.min(131) + 1, 132)))));
+        ops.push(Op::Api(Draw("Q".into())));
+        ops.push(Op::Api(ResetMode(vec![3], true)));
+        ops.push(Op::Api(Resize(None, Some(rng.range(133, 140)))));
+        v.push(Cand { ops });
+    }
+    // IRM governs insertion whatever the set in use makes of the characters (CP437 / VAX42 turn
+    // zero-width control codes into glyphs) and however many characters one draw() call holds
+    for _ in 0..3 {
+        let mut ops: Vec<Op> = Vec::new();
+        if rng.below(3) != 0 {
+            ops.push(Op::Api(DefineCharset((*rng.pick(&["U", "V", "0"])).into(), "(".into())));
+        }
+        ops.push(Op::Api(if rng.below(4) != 0 { SetMode(vec![4], false) } else { ResetMode(vec![4], false) }));
+        ops.push(Op::Api(CursorPosition(Some(rng.range(1, _pre.lines)), Some(rng.range(1, _pre.columns)))));
+        ops.push(Op::Api(Draw(gen::mixed_api_string(rng))));
+        v.push(Cand { ops });
+    }
     // "erases the screen and homes the cursor" in both directions, with a region and origin mode
     // set while in the other width (home is (0,0) afterwards: the region does not survive)
     for _ in 0..3 {
@@ -1264,6 +1329,7 @@ pub static C12: StepCheck = StepCheck {
     required: &["step-judged", "margins", "DECOM"],
     owns: |c, _| match c {
         Call::Draw(_) | Call::Linefeed | Call::Index => Own::Full, // "IRM, LNM and DECAWM govern insertion, newline and autowrap"
+        Call::Resize(..) => Own::Only(&["cell"]), // grow probe: what DECCOLM erased must not come back
         _ => {
             if c.owner() == "C12" {
                 Own::Full
@@ -1600,7 +1666,9 @@ fn c14_enum(chk: &StepCheck, cx: &mut Ctx) {
     if modes_sweep(chk, cx, 0.25) {
         cx.stats.exhaustive_parts.insert("every mode number 0..=130 and 40 numbers other terminals define, private and ANSI, set on a dense 5x3 screen: the check's candidates judged from three cursor positions".into());
     }
-    let depth: u32 = if cx.quick() { 4200 } else { 16500 };
+    // (every judged step snapshots the whole stack, so the cost is quadratic in the depth: the
+    // fully judged nesting stays moderate, and a much deeper stack is built unjudged below)
+    let depth: u32 = if cx.quick() { 4200 } else { 6000 };
     for (i, via_parser) in [false, true].iter().enumerate() {
         if !cx.mine(i as u64) || !cx.begin_group(&format!("deep nesting {} parser={}", depth, via_parser)) {
             continue;
@@ -1624,6 +1692,29 @@ fn c14_enum(chk: &StepCheck, cx: &mut Ctx) {
             }
             fan_out(cx, chk.id, &chk.owns, c, l, &[], &base, &pre, &[Cand { ops }]);
             cx.stats.exhaustive_parts.insert(format!("save^{} . restore^{} with pairwise distinct levels, API and parser", depth, depth + 2));
+        }
+    }
+    // a stack deeper than any 16-bit counter: 70 000 levels pushed without judging (setup), then
+    // the next pushes and pops judged in full
+    if cx.mine(2) && cx.begin_group("very deep stack") {
+        let (c, l) = (7u32, 5u32);
+        let mut setup: Vec<Op> = Vec::new();
+        for k in 0..70_000u32 {
+            setup.push(Op::Api(Call::CursorPosition(Some(1 + k % l), Some(1 + (k / l) % c))));
+            setup.push(Op::Api(Call::SaveCursor));
+        }
+        if let Some((base, pre)) = reach(cx, c, l, &setup) {
+            let ops = vec![
+                Op::Api(Call::Sgr(vec![1, 31])),
+                Op::Api(Call::SaveCursor),
+                Op::Api(Call::CursorPosition(Some(1), Some(1))),
+                Op::Api(Call::RestoreCursor),
+                Op::Api(Call::RestoreCursor),
+                Op::Api(Call::RestoreCursor),
+                Op::Api(Call::RestoreCursor),
+            ];
+            fan_out(cx, chk.id, &chk.owns, c, l, &setup, &base, &pre, &[Cand { ops }]);
+            cx.stats.exhaustive_parts.insert("a saved stack of 70 000 levels (built unjudged), then one more push and four pops judged in full".into());
         }
     }
 }
